@@ -141,6 +141,8 @@ def run(chk, st, tier):
             runtime.append((b, label, d, kind))
     # C. the variants as programs: same bytes for the same values, excluded fields stay zero
     rng.shuffle(runtime)
+    letters = [v for v in runtime if v[3] == "unexported-letter"]
+    runtime = [v for v in runtime if v[3] != "unexported-letter"] + letters[:3]      # tree and code identity decide the letter variants; three of them also run
     runtime.sort(key=lambda v: v[3] not in ("embed-reuse", "other-tag-keys"))      # the few reuse / tag-key variants always run
     chosen = runtime[:40 if tier == "quick" else 400]
     shapes = []
